@@ -57,6 +57,10 @@ type PoolCase struct {
 	Workers int         `json:"workers"` // 1 = sequential
 	Ops     []PoolOp    `json:"ops"`
 	Tail    []PoolOp    `json:"tail"` // further requests, sequential, after the workers have joined
+	// Stress > 0 (needs two present chunks): before the history, while every session is alive, 2*N+2 goroutines make Stress
+	// rounds each of HasChunk(one present chunk) + GetChunk(another): whatever the store keeps between calls, a read
+	// must return the chunk that was asked for
+	Stress int `json:"stress,omitempty"`
 }
 
 var poolKinds = []string{"present", "present", "present", "missing", "missing", "missing", "invalid", "garbage", "abort", "die"}
@@ -64,6 +68,9 @@ var poolKinds = []string{"present", "present", "present", "missing", "missing", 
 func genPool(t *rapid.T) PoolCase {
 	var c PoolCase
 	c.N = rapid.SampledFrom([]int{1, 1, 2, 2, 3}).Draw(t, "n")
+	if rapid.IntRange(0, 3).Draw(t, "stress") == 0 {
+		c.Stress = rapid.SampledFrom([]int{50, 200, 400}).Draw(t, "stressrounds")
+	}
 	k := rapid.IntRange(2, 5).Draw(t, "nchunks")
 	for i := 0; i < k; i++ {
 		n := rapid.IntRange(1, 3000).Draw(t, "len")
@@ -98,8 +105,11 @@ func newPoolStore(pool chan *desync.Protocol, n int) (rs *desync.RemoteSSH, err 
 	}()
 	rs = &desync.RemoteSSH{}
 	v := reflect.ValueOf(rs).Elem()
-	if v.NumField() != 3 {
-		return nil, fmt.Errorf("desync.RemoteSSH has %d fields, this harness knows location, pool, n", v.NumField())
+	// Fields other than location, pool and n keep their zero value - which is what NewRemoteSSHStore's own struct
+	// literal gives them. (Refusing a struct with further fields, as this harness did at first, made the whole mode
+	// blind to exactly the changes that add state to the store.)
+	if v.NumField() < 3 {
+		return nil, fmt.Errorf("desync.RemoteSSH has %d fields, this harness needs location, pool, n", v.NumField())
 	}
 	set := func(name string, val any) error {
 		f := v.FieldByName(name)
@@ -394,6 +404,12 @@ func runPool(c PoolCase) (o hx.Outcome) {
 			want = resError
 		}
 		if r.served == -1 { // the request reached no peer: it went to a session whose peer had gone
+			if r.res == resOK && kind == "present" {
+				// the right bytes for the requested ID without a request to any peer: a store may remember what it pulled
+				// (content-addressed data cannot go stale); nothing failed from the caller's point of view
+				o.Class("ssh-pool:answered-without-peer")
+				return
+			}
 			o.Class("ssh-pool:request-on-dead-session")
 			if r.res != resError {
 				o.Fail(sig("ssh-pool", "failure", map[string]string{resOK: resOK, resWrong: resOK, resMissing: resMissing}[r.res]), "session dead — %s", what)
@@ -428,6 +444,52 @@ func runPool(c PoolCase) (o hx.Outcome) {
 			b[i] = atomic.LoadInt64(&p.requests)
 		}
 		return b
+	}
+
+	if c.Stress > 0 {
+		var present []int
+		for i, k := range kinds {
+			if k == "present" {
+				present = append(present, i)
+			}
+		}
+		if len(present) >= 2 {
+			rounds := min(c.Stress, 1000)
+			type mixup struct {
+				i      int
+				res    string
+				detail string
+			}
+			var smu sync.Mutex
+			var bad []mixup
+			var swg sync.WaitGroup
+			for g := 0; g < 2*n+2; g++ {
+				swg.Add(1)
+				go func(g int) {
+					defer swg.Done()
+					for r := 0; r < rounds; r++ {
+						a, b := present[(g+r)%len(present)], present[(g+r+1)%len(present)]
+						rs.HasChunk(ids[a])
+						ch, err := rs.GetChunk(ids[b])
+						if res, det := classifyGet(ch, err, ids[b], data[b]); res != resOK {
+							smu.Lock()
+							bad = append(bad, mixup{b, res, det})
+							smu.Unlock()
+							return
+						}
+					}
+				}(g)
+			}
+			swg.Wait()
+			o.Class("ssh-pool:stress")
+			if n >= 2 {
+				o.Class("ssh-pool:stress:n>=2")
+			}
+			if len(bad) > 0 {
+				o.Fail(sig("ssh-pool", "ok", bad[0].res)+":concurrent-mixed-ids", "%d goroutines probing one present chunk and reading another, %d rounds each, pool of %d live sessions: GetChunk(chunk %d): %s %s",
+					2*n+2, rounds, n, bad[0].i, bad[0].res, clip(bad[0].detail))
+			}
+		}
 	}
 
 	failures, okAfter, blocked := 0, false, false
